@@ -694,6 +694,12 @@ output_executor_backup_call (OrcProgram *p, FILE *output)
       }
     }
   }
+  for(i=0;i<4;i++){
+    var = &p->vars[ORC_VAR_A1 + i];
+    if (var->size) {
+      fprintf(output, "(void *)&ex->accumulators[%d], ", i);
+    }
+  }
   for(i=0;i<8;i++){
     var = &p->vars[ORC_VAR_S1 + i];
     if (var->size) {
@@ -754,6 +760,12 @@ output_backup_call (OrcProgram *p, FILE *output)
       if (p->is_2d) {
         fprintf(output, "%s_stride, ", varnames[ORC_VAR_D1 + i]);
       }
+    }
+  }
+  for(i=0;i<4;i++){
+    var = &p->vars[ORC_VAR_A1 + i];
+    if (var->size) {
+      fprintf(output, "%s, ", varnames[ORC_VAR_A1 + i]);
     }
   }
   for(i=0;i<8;i++){
